@@ -53,7 +53,7 @@ def strategy(tier):
       (4, st.tuples(st.just('advance'), st.sampled_from([1, 5, 10, 25, 25, 60, 150])).map(list)),
   ]
   kill = st.one_of(st.none(), st.none(), st.tuples(st.integers(0, 60), st.integers(0, 8), st.booleans()).map(list))
-  return st.fixed_dictionaries({'config': cfg, 'ops': sized_list(weighted(*pairs), 0, 60), 'kill': kill})
+  return st.fixed_dictionaries({'config': cfg, 'ops': sized_list(weighted(*pairs), 0, 60 if tier == 'quick' else 160), 'kill': kill})
 
 
 class Conn(ClientMessageSink):
